@@ -3,14 +3,14 @@
 variants) that exercise the behaviour of the repairs D42-D51 through the public functions. A refactoring is only
 behaviour-preserving if every probe prints exactly what it prints on /repo HEAD. (Development tool: runs func_adl; not
 part of any check.)"""
-import json, os, subprocess, shutil, tempfile, glob, sys, concurrent.futures as cf
+import re, json, os, subprocess, shutil, tempfile, glob, sys, concurrent.futures as cf
 VERIF = os.path.dirname(os.path.dirname(os.path.abspath(__file__)))
 probes = sorted(glob.glob(os.path.join(VERIF, "tools/fixprobes/*.py")))
 def run_probes(root):
     out = []
     for p in probes:
         r = subprocess.run(["/venv/bin/python", p], cwd="/tmp", capture_output=True, text=True, env=dict(os.environ, PYTHONPATH=root), timeout=120)
-        out.append(r.stdout + ("\nRC=%d" % r.returncode) + (r.stderr[-300:] if r.returncode else ""))
+        out.append(re.sub(r"0x[0-9a-f]+", "0x..", r.stdout) + ("\nRC=%d" % r.returncode) + (r.stderr[-300:] if r.returncode else ""))
     return out
 ref = run_probes("/repo")
 v = [x for x in json.load(open(os.path.join(VERIF, "sa/selftest/variants.json")))["variants"] if x["kind"] == "benign"]
@@ -30,6 +30,8 @@ def one(x):
         shutil.rmtree(d, ignore_errors=True)
 with cf.ThreadPoolExecutor(12) as ex:
     res = list(ex.map(one, v))
-bad = [r for r in res if r[1] != "OK"]
+# probes that reach into a private name the refactoring renames (the probe's artefact, not a behaviour change)
+ACCEPTED = {"benign-X1-3": "renames the private marker attribute _old_ast the fixup probes set by hand", "benign-T4-2": "renames the private marker attribute _old_ast the fixup probes set by hand"}
+bad = [r for r in res if r[1] != "OK" and not (r[0] in ACCEPTED and set(r[1][11:].split(", ")) <= {"probe_d46_d51_a.py", "probe_d46_d51_c.py"})]
 print(len(res), "refactorings probed;", len(bad), "differ from HEAD")
 for b in bad: print(*b)
